@@ -214,7 +214,15 @@ class ExpressionManager(object):
             n = up.model.fnode.FNode(content, self._next_free_id, self.environment)
             self._next_free_id += 1
             self.expressions[content] = n
-            self.environment.type_checker.get_type(n)
+            try:
+                self.environment.type_checker.get_type(n)
+            except BaseException:
+                # an expression that is rejected by the type checker must not
+                # stay in the table: the next request for the same expression
+                # would find it there and return it without any check.
+                if self.expressions.get(content, None) is n:
+                    del self.expressions[content]
+                raise
             return n
 
     def And(
